@@ -19,6 +19,10 @@ CONSTANTS
   ReadNotCounted = FALSE
   SqueezedFits = TRUE
   ReopenClampsMap = FALSE
+  LiveSized = FALSE
+  Page = 1
+  PageBySkipCur = FALSE
+  PageFreshSnap = FALSE
   BatchMax = 1
   MaxOps = 14
   WithReads = FALSE
@@ -27,4 +31,4 @@ CONSTANTS
 VIEW LiveView
 CONSTRAINT LiveBound
 CHECK_DEADLOCK TRUE
-INVARIANTS TypeOK CountAgrees MarkAgrees NoRemapUnderTxn NoHolderParked GateLive NoMapFull
+INVARIANTS TypeOK CountAgrees MarkAgrees NoRemapUnderTxn NoHolderParked GateLive PageWalk NoMapFull
